@@ -69,6 +69,16 @@ func MatchCBOR(n *cborv.Node, in *Intent, s *Settings) error {
 		if n.Major == 6 && n.Arg == 262 && n.Child != nil && n.Child.Major == 2 && string(n.Child.Bytes) == "null" {
 			return nil
 		}
+		if s != nil && s.IfaceMarshal != 0 {
+			// where the nil travels through the Interface path it is rendered by the installed InterfaceMarshalFunc
+			raw, es := RefIfaceS(nil, s)
+			if es != "" && wantBytes(n, 3, []byte(es)) == nil {
+				return nil
+			}
+			if es == "" && n.Major == 6 && n.Arg == 262 && n.Child != nil && wantBytes(n.Child, 2, raw) == nil {
+				return nil
+			}
+		}
 		if n.Major != 7 || n.Info != 22 {
 			return fmt.Errorf("want null, got %s", n)
 		}
@@ -150,7 +160,7 @@ func MatchCBOR(n *cborv.Node, in *Intent, s *Settings) error {
 		}
 		return matchCF64(n, float64(in.D)/float64(s.DurationFieldUnit))
 	case IIface:
-		raw, es := RefIface(in.V)
+		raw, es := RefIfaceS(in.V, s)
 		if es != "" {
 			return wantBytes(n, 3, []byte(es))
 		}
